@@ -209,17 +209,17 @@ theorem loadEv_valid (g : Garbage) (pre post : List Nat) (e : SEv) (hw : e.WF) (
   unfold loadEv
   rw [hs, hk]
   rw [if_neg (by simp only [List.length_append]; omega)]
-  rw [if_neg (by intro ⟨hu, hl⟩; have := hc hu; omega)]
+  rw [if_neg (by intro ⟨hu, _, hl⟩; have := hc hu; omega)]
   exact ⟨_, rfl⟩
 
 theorem loadEv_clock (g : Garbage) (pre post : List Nat) (e : SEv) (hw : e.WF) (c : Cur) (r1 : List Read)
-    (hu : c.unsorted = false) (hc : (e.clock : Int) < c.lastclock) :
+    (hu : c.unsorted = false) (hh : c.hasEv = true) (hc : (e.clock : Int) < c.lastclock) :
     ∃ c' rd, loadEv g (pre ++ (e.encode ++ post)) c (pre.length : Int) r1 = (.err .clock, c', rd) := by
   obtain ⟨hs, hk, _, _, _⟩ := ev_facts g pre post e hw
   unfold loadEv
   rw [hs, hk]
   rw [if_neg (by simp only [List.length_append]; omega)]
-  rw [if_pos ⟨hu, hc⟩]
+  rw [if_pos ⟨hu, hh, hc⟩]
   exact ⟨_, _, rfl⟩
 
 theorem length_header : header.length = 8 := by decide
@@ -630,7 +630,7 @@ theorem swap_with (ld : Loader) (g : Garbage) (pre : List SEv) (a b : SEv) (post
   rw [← hb2] at hst
   rw [hld _ _ _ hok] at hst
   have hck := fun r1 => loadEv_clock g (header ++ encodeAll pre ++ b.encode) (encodeAll post) a hwa
-    (onEv (header ++ encodeAll pre).length b.clock false) r1 rfl (by simp only [onEv]; omega)
+    (onEv (header ++ encodeAll pre).length b.clock false) r1 rfl rfl (by simp only [onEv]; omega)
   rw [← hb3] at hck
   obtain ⟨c', rd, hck⟩ := hck (evSizeReads g (streamBytes (pre ++ b :: a :: post))
       ((header ++ encodeAll pre).length : Int))
